@@ -569,6 +569,13 @@ func classify(c Case) (bool, []string) {
 				}
 				add("obj-" + a.Name + "-value:" + lbl)
 				add("obj-src:" + p.Src)
+				if p.Src == "tern" {
+					neg := map[bool]string{true: "negated-", false: ""}[p.Neg]
+					add("obj-" + a.Name + "-ternary:" + neg + p.Alt)
+				}
+				if p.Src == "not" {
+					add("obj-" + a.Name + "-negation")
+				}
 				if p.Src == "path" {
 					add("kind:" + v.K)
 				}
@@ -690,6 +697,9 @@ func classify(c Case) (bool, []string) {
 			}
 			if strings.Contains(v, ";") {
 				add("style-value:inner-semicolon(" + where + ")")
+			}
+			if strings.Contains(v, "\\") {
+				add("style-value:backslash-escape(" + where + ")")
 			}
 			if edgeQuote(v) {
 				add("style-value:quote-at-edge(" + where + ")")
@@ -825,6 +835,8 @@ func tableVals() []vals.V {
 		vals.Str("url(https://x.test/v.png)"), vals.Str("red !important"), vals.Str("rgba(1, 2, 3, 0.5)"), vals.Str("local('a b'), serif"),
 		vals.Str("background-image: url(https://x.test/z.png); color: red"), vals.Str(`font-family: "Open Sans", serif; width: calc(50% + 1px)`),
 		vals.Str("background: url(http://h.test:8080/p.png) no-repeat; color: red !important"),
+		// backslash escapes inside quoted strings
+		vals.Str(`"x\";y"`), vals.Str(`'it\'s;ok'`), vals.Str(`content: "x\";y"; width: 2px`), vals.Str(`--e: 'a\\'; color: red`),
 		// display declarations of the style itself
 		vals.Str("none"), vals.Str("flex"), vals.Str("display: none; color: red"), vals.Str("width: 1px; display :  none ;"), vals.Str("DISPLAY: none"),
 		// ';' inside a value; quotes at the ends of a value
@@ -898,6 +910,29 @@ func coreForms() []form {
 			return []Attr{{Kind: "vobj", Name: "style", Pairs: []Pair{{Key: "--u", Q: true, Src: "path", Arg: x}, {Key: "boxShadow", Src: "str", Arg: "0 0 1px rgba(1, 2, 3, 0.5)"}, {Key: "color", Src: "str", Arg: "red !important"}}},
 				st("style", "color: blue; --u: url(http://h/p?q=r:s); grid-area: 1 / 2 / 3 / 4")}
 		}},
+		{"style-escape-static+show", func(x string) []Attr {
+			return []Attr{st("style", `color: red; content: "x\";y"; --e: 'a\\'; --f: 'it\'s;ok'; width: 1px`), {Kind: "show", Text: x}}
+		}},
+		{"style-escape-static+obj", func(x string) []Attr {
+			return []Attr{st("style", `content: "x\";y"; quotes: "\"" "\";"; color: blue`), {Kind: "obj", Name: "style", Pairs: []Pair{{Key: "color", Src: "path", Arg: x}, {Key: "--g", Q: true, Src: "path", Arg: "esc"}}}}
+		}},
+		{"style-escape-static+bind", func(x string) []Attr {
+			return []Attr{{Kind: "bind", Name: "style", Text: x}, st("style", `--f: "p\;q"; content: 'it\'s;ok'; margin: 0`)}
+		}},
+		{"style-ternary", func(x string) []Attr {
+			return []Attr{st("style", "color: blue; padding: 1px; width: 9px"), {Kind: "obj", Name: "style", Pairs: []Pair{
+				{Key: "color", Src: "tern", Arg: "yes", Neg: true, Alt: "str", Then: "black", Else: "white"},
+				{Key: "width", Src: "tern", Arg: "nope", Neg: true, Alt: "num", Then: "5", Else: "7"},
+				{Key: "fontSize", Src: "tern", Arg: "yes", Alt: "path", Then: x, Else: "other"},
+				{Key: "--t", Q: true, Src: "tern", Arg: "nope", Neg: true, Alt: "path", Then: x, Else: "other"},
+				{Key: "top", Src: "not", Arg: "nope"}}}}
+		}},
+		{"class-ternary", func(x string) []Attr {
+			return []Attr{st("class", "s1"), {Kind: "obj", Name: "class", Pairs: []Pair{
+				{Key: "k1", Src: "not", Arg: "yes"}, {Key: "k-2", Q: true, Src: "not", Arg: "nope"},
+				{Key: "k3", Src: "tern", Arg: "nope", Neg: true, Alt: "path", Then: x, Else: "other"},
+				{Key: "k4", Src: "tern", Arg: "yes", Neg: true, Alt: "str", Then: "x", Else: ""}}}}
+		}},
 		{"display-static-none+show", func(x string) []Attr {
 			return []Attr{st("style", "color: blue; display: none"), {Kind: "show", Text: x}}
 		}},
@@ -966,7 +1001,7 @@ func corePlacements() []placement {
 func baseData(x vals.V) map[string]vals.V {
 	return map[string]vals.V{
 		"x": x, "other": vals.Str("o"), "five": vals.Int(5), "yes": vals.Bool(true), "chainoff": vals.Bool(false),
-		"markup": vals.Str("<b>h</b>"), "plain": vals.Str("txt"), "rich": vals.Str("url(https://x.test/r.png)"), "imp": vals.Str("red !important"), "quoted": vals.Str("'Open Sans', serif"), "dnone": vals.Str("width: 1px; display: none"),
+		"markup": vals.Str("<b>h</b>"), "plain": vals.Str("txt"), "rich": vals.Str("url(https://x.test/r.png)"), "imp": vals.Str("red !important"), "quoted": vals.Str("'Open Sans', serif"), "dnone": vals.Str("width: 1px; display: none"), "nope": vals.Bool(false), "esc": vals.Str(`"x\";y"`),
 		forList: vals.List("[]any", vals.Str("i1"), vals.Str("i2")),
 	}
 }
@@ -992,7 +1027,8 @@ func enumerate(rec *ev.Rec, f *findings, shard, shards int) (int, bool) {
 	}
 	for _, v := range tableVals() {
 		for _, fm := range coreForms() {
-			extended := strings.HasPrefix(fm.name, "style-rich") || strings.HasPrefix(fm.name, "style-semicolon") || strings.HasPrefix(fm.name, "display-")
+			extended := strings.HasPrefix(fm.name, "style-rich") || strings.HasPrefix(fm.name, "style-semicolon") || strings.HasPrefix(fm.name, "display-") ||
+				strings.HasPrefix(fm.name, "style-escape") || strings.HasSuffix(fm.name, "-ternary")
 			for _, pl := range corePlacements() {
 				if extended && !run.Thorough() {
 					// quick tier: the style-vocabulary forms go through the distinct evaluation paths only
@@ -1234,16 +1270,20 @@ var (
 		{"background-image", "url(https://x.test/y.png)"}, {"background", "url(//cdn.test:8080/a.png) no-repeat"}, {"color", "blue !important"},
 		{"font-family", "'Open Sans', serif"}, {"width", "calc(100% - 2px)"}, {"content", `"a:b"`}, {"--u", "url(http://h/p?q=r:s)"},
 		{"transition", "color 0.3s ease-in, width 1s"}, {"background-color", "rgba(1, 2, 3, 0.5)"}, {"grid-area", "1 / 2 / 3 / 4"},
+		// backslash escapes inside quoted strings: the escaped quote does not end the string
+		{"content", `"x\";y"`}, {"content", `'it\'s;ok'`}, {"--e", `'a\\'`}, {"--f", `"p\;q"`}, {"quotes", `"\"" "\";"`},
 		// a ';' that is part of the value: data URIs, quoted strings
 		{"background", "url(data:image/png;base64,AAAA) no-repeat"}, {"content", "'a;b:c'"}, {"--d", "url(data:text/plain;charset=utf-8,x:y)"}}
 	styleStrs = []vals.V{vals.Str("color:red"), vals.Str("color: red; width: 2px;"), vals.Str("font-size:3px;margin:0"), vals.Str("display:block"), vals.Str(""), vals.Str("--x: 2; padding : 0"),
 		vals.Str("background-image: url(https://x.test/z.png); color: red"), vals.Str("color: red !important"), vals.Str(`font-family: "Open Sans", serif; width: calc(50% + 1px)`),
 		vals.Str("background: url(http://h.test:8080/p.png) no-repeat; margin-top: 0"), vals.Str("content: 'k:v'; color: rgba(9, 8, 7, 0.1)"),
 		vals.Str("background: url(data:image/png;base64,BBBB); color: red"), vals.Str(`content: "x;y:z"; width: 2px`),
+		vals.Str(`content: "x\";y"; width: 2px`), vals.Str(`--e: 'a\\'; color: red`), vals.Str(`content: 'it\'s;ok'`),
 		vals.Str("display: none"), vals.Str("display:none;color:red"), vals.Str("width: 1px; display :  none ;"), vals.Str("display: flex"), vals.Str("DISPLAY: none; width: 1px")}
 	richStyleVals = []vals.V{vals.Str("url(https://x.test/v.png)"), vals.Str("red !important"), vals.Str("rgba(1, 2, 3, 0.5)"), vals.Str("calc(100% - 2px)"),
 		vals.Str("local('a b'), serif"), vals.Str("color 0.3s ease-in, width 1s"), vals.Str("1 / 2"), vals.Str("url(//h.test:81/a?b=c:d)"), vals.Str(`"Open Sans", serif`), vals.Str("'k:v'"),
-		vals.Str("url(data:image/png;base64,CCCC)"), vals.Str("'a;b:c'"), vals.Str(`"q;r"`), vals.Str("serif, 'Open Sans'")}
+		vals.Str("url(data:image/png;base64,CCCC)"), vals.Str("'a;b:c'"), vals.Str(`"q;r"`), vals.Str("serif, 'Open Sans'"),
+		vals.Str(`"x\";y"`), vals.Str(`'it\'s;ok'`), vals.Str(`'a\\'`)}
 	richStyleLits = []string{"url(data:image/png;base64,DDDD)", "url(https://x.test/l.png)", "red !important", "rgba(1, 2, 3, 0.5)", "calc(100% - 2px)", "1 / 2", "a, b"}
 	classStrs     = []vals.V{vals.Str("b1"), vals.Str("b1 b2"), vals.Str(""), vals.Str(" b3 "), vals.Int(5)}
 	styleVals     = []vals.V{vals.Str("red"), vals.Str("2px"), vals.Int(5), vals.Num("float64", "0.5"), vals.Str("bold"), vals.Num("uint16", "10")}
@@ -1269,7 +1309,24 @@ func (b *builder) pairValue(label string, p Pair, pool []vals.V, loopVar bool) P
 		}
 		return p
 	}
-	switch rapid.IntRange(0, 9).Draw(t, label+"-src") {
+	switch rapid.IntRange(0, 11).Draw(t, label+"-src") {
+	case 10:
+		// `!flag`
+		p.Src, p.Arg = "not", b.newVar(vals.Bool(rapid.Bool().Draw(t, label+"-nb")))
+	case 11:
+		// `flag ? a : b` / `!flag ? a : b` with string, number or path alternatives
+		p.Src, p.Arg = "tern", b.newVar(vals.Bool(rapid.Bool().Draw(t, label+"-tb")))
+		p.Neg = rapid.IntRange(0, 3).Draw(t, label+"-tneg") > 0
+		switch p.Alt = pick(t, label+"-talt", []string{"str", "str", "num", "path"}); p.Alt {
+		case "str":
+			alts := pick(t, label+"-ts", [][2]string{{"black", "white"}, {"x", ""}, {"1px", "2px"}, {"", "y"}})
+			p.Then, p.Else = alts[0], alts[1]
+		case "num":
+			alts := pick(t, label+"-tn", [][2]string{{"5", "7"}, {"0", "3"}, {"1", "0"}})
+			p.Then, p.Else = alts[0], alts[1]
+		default:
+			p.Then, p.Else = b.newVar(pick(t, label+"-tp1", pool)), b.newVar(pick(t, label+"-tp2", pool))
+		}
 	case 0:
 		p.Src, p.Arg = "bool", pick(t, label+"-b", []string{"true", "false"})
 	case 1:
